@@ -11,9 +11,14 @@ import linecache
 import os
 import signal
 import sys
+import time
 import traceback
 
+from . import core as _core
 from .core import BudgetExceeded
+
+_REAL_CLOCKS = {name: getattr(time, name) for name in (
+    'time', 'monotonic', 'perf_counter', 'process_time', 'time_ns', 'monotonic_ns', 'perf_counter_ns', 'sleep')}
 
 CO_GENERATOR = 0x20
 
@@ -199,6 +204,8 @@ class Tracer:
         span_depth = 0
         last_nact = -1
 
+        self._nfn = lambda: n
+
         def rec_event(frame):
             nonlocal last_nact
             code = frame.f_code
@@ -294,13 +301,26 @@ class Tracer:
         return glob
 
     def install(self):
-        "start tracing"
+        "start tracing (and, if the case has a simulated clock, put the time module's clocks on the step clock)"
+        rate = _core.CLOCK_RATE
+        if rate is not None:
+            nfn = self._nfn
+            time.time = lambda: 1_790_000_000.0 + nfn() * rate
+            time.monotonic = lambda: 5000.0 + nfn() * rate
+            time.perf_counter = lambda: 5000.0 + nfn() * rate
+            time.process_time = lambda: 1.0 + nfn() * rate
+            time.time_ns = lambda: int((1_790_000_000.0 + nfn() * rate) * 1e9)
+            time.monotonic_ns = lambda: int((5000.0 + nfn() * rate) * 1e9)
+            time.perf_counter_ns = lambda: int((5000.0 + nfn() * rate) * 1e9)
+            time.sleep = lambda s: None
         sys.settrace(self._glob)
 
     @staticmethod
     def remove():
-        "stop tracing"
+        "stop tracing; real clocks back"
         sys.settrace(None)
+        for name, fn in _REAL_CLOCKS.items():
+            setattr(time, name, fn)
 
 
 class unraisable_counter:
